@@ -16,7 +16,9 @@ replay = base.replay
 SEPS = ":/#"
 
 NAMESPACES = ["http://example.org/", "http://example.org/people/", "http://example.org/people/staff#", "https://data.example.com/id/",
-              "https://a.org/", "https://b.org/", "http://x.io/", "urn:isbn:", "http://example.org/p"]
+              "https://a.org/", "https://b.org/", "http://x.io/", "urn:isbn:", "http://example.org/p",
+              # hosts that share leading characters (the common prefix ends inside the host: cutting back leaves the bare scheme), one-letter scheme
+              "http://example.com/", "https://database.example.com/", "https://data.example.org/", "x:", "x:it"]
 
 
 def gen_iri_graph(rng):
